@@ -193,11 +193,24 @@ class Builder:
     """Turns descriptors into hugr objects.  One harness extension per Builder collects the
     generated TypeDefs (same name => same definition object)."""
 
-    def __init__(self):
+    def __init__(self, opaque=False):
         from hugr import ext
 
         self.ext = ext.Extension(HEXT, ext.Version(0, 1, 0))
         self.defs = {}
+        #: build every extension type in its opaque form (what decoding yields)
+        self.opaque = opaque
+
+    def _opaque(self, d):
+        from hugr import tys
+
+        w = wire_ty(d)
+        args = d[2] if d[0] == "ext" else {
+            "int": lambda: [["n", d[1]]], "float": lambda: [], "string": lambda: [],
+            "array": lambda: [["n", d[1]], ["t", d[2]]], "list": lambda: [["t", d[1]]],
+            "sarray": lambda: [["t", d[1]]]}[d[0]]()
+        return tys.Opaque(id=w["id"], bound=self.bound(w["bound"]), args=[self.arg(a) for a in args],
+                          extension=w["extension"])
 
     def bound(self, b):
         from hugr import tys
@@ -295,6 +308,8 @@ class Builder:
         if k == "opaque":
             return tys.Opaque(id=d[2], bound=self.bound(d[4]), args=[self.arg(a) for a in d[3]],
                               extension=d[1])
+        if self.opaque and k in ("int", "float", "string", "array", "list", "sarray", "ext"):
+            return self._opaque(d)
         if k == "int":
             from hugr.std.int import int_t
 
@@ -493,3 +508,75 @@ class Gen:
                 args.append(self.arg_for(["T", "C"] if need_copy else p, d))
             return ["ext", df, args]
         raise AssertionError(k)
+
+
+# ----------------------------------------------------------------------------- polymorphism
+
+
+def subst(d, targs):
+    """Substitute type args (descriptors) for variables in a type descriptor."""
+    k = d[0]
+    if k == "var":
+        a = targs[d[1]]
+        return a[1] if a[0] == "t" else d
+    if k == "sum":
+        return ["sum", [subst_row(r, targs) for r in d[1]]]
+    if k in ("tuple", "option"):
+        return [k, subst_row(d[1], targs)]
+    if k == "either":
+        return [k, subst_row(d[1], targs), subst_row(d[2], targs)]
+    if k == "func":
+        return ["func", subst_row(d[1], targs), subst_row(d[2], targs), d[3]]
+    if k == "array":
+        return ["array", d[1], subst(d[2], targs)]
+    if k in ("list", "sarray"):
+        return [k, subst(d[1], targs)]
+    return d
+
+
+def subst_row(row, targs):
+    out = []
+    for t in row:
+        if t[0] == "rowvar":
+            a = targs[t[1]]
+            if a[0] == "seq":
+                out.extend(x[1] for x in a[1])
+            else:
+                out.append(t)
+        else:
+            out.append(subst(t, targs))
+    return out
+
+
+def wire_poly(params, body):
+    return {"params": [wire_param(p) for p in params], "body": wire_func(body)}
+
+
+def gen_poly(r, g, depth=1, force_poly=None):
+    """(params, body func descriptor, targs, instantiation func descriptor)."""
+    npar = r.choice([0, 0, 1, 1, 2, 3]) if force_poly is None else (r.randint(1, 3) if force_poly else 0)
+    params = []
+    for _ in range(npar):
+        b = r.choice(["C", "A"])
+        params.append(["L", ["T", b]] if r.random() < 0.45 else ["T", b])
+
+    def vrow(n):
+        row = []
+        for _ in range(r.randint(0, n)):
+            if params and r.random() < 0.6:
+                i = r.randrange(len(params))
+                p = params[i]
+                row.append(["rowvar", i, p[1][1]] if p[0] == "L" else ["var", i, p[1]])
+            else:
+                row.append(g.ty(depth))
+        return row
+
+    body = ["func", vrow(3), vrow(3), r.sample(REQS, r.choice([0, 0, 1]))]
+    targs = []
+    for p in params:
+        if p[0] == "T":
+            targs.append(g.arg_for(p, depth))
+        else:
+            targs.append(["seq", [g.arg_for(p[1], depth) for _ in range(r.choice([0, 1, 2, 3]))]])
+    inst = ["func", subst_row(body[1], targs), subst_row(body[2], targs), body[3]]
+    return params, body, targs, inst
